@@ -19,18 +19,22 @@
 (* every sum stays below 2^31 (2^16 leaves x n <= 400).                    *)
 (***************************************************************************)
 EXTENDS TraceCommon
-VARIABLES f, choices, stream, probes, accLe, accLt, leaves
-tvars == <<l, f, choices, stream, probes, accLe, accLt, leaves>>
+VARIABLES f, choices, stream, probes, accLe, accLt, leaves,
+          fl0     \* [call index, cumulative flips, ...] of the first leaf: the flip count of each call is a function of the call index only
+tvars == <<l, f, choices, stream, probes, accLe, accLt, leaves, fl0>>
 
 TrueWeight(v, incl) == Cardinality({j \in DOMAIN stream : IF incl THEN stream[j] <= v ELSE stream[j] < v})
 
 TBegin == IsEvent("Begin") /\ LET e == Log[l] IN
             /\ Chk("harness:stream-length", Len(e.stream) = e.n /\ e.f >= 0 /\ e.f <= 16)
             /\ choices' = (IF Has(e, "choices") THEN e.choices ELSE 1)
+            /\ fl0' = <<>>
             /\ f' = e.f /\ stream' = e.stream /\ probes' = e.probes /\ leaves' = 0
             /\ accLe' = [i \in DOMAIN e.probes |-> 0] /\ accLt' = [i \in DOMAIN e.probes |-> 0]
 TLeaf == IsEvent("Leaf") /\ LET e == Log[l] IN
             /\ Chk("flip-count-independent-of-outcomes", e.flips = f)
+            /\ Chk("per-call-flip-count-independent-of-outcomes", leaves = 0 \/ e.fl = fl0)
+            /\ fl0' = (IF leaves = 0 THEN e.fl ELSE fl0)
             /\ Chk("n", e.n = Len(stream))
             /\ Chk("rank-is-weight/n", e.exact)
             /\ Chk("harness:leaf-order", e.leaf = leaves /\ e.coins = leaves % 2^f)
@@ -43,8 +47,8 @@ TVerdict == IsEvent("Verdict") /\ LET e == Log[l] IN
             /\ \A i \in DOMAIN probes :
                  /\ Chk("unbiased-inclusive-rank", accLe[i] = leaves * TrueWeight(probes[i], TRUE))
                  /\ Chk("unbiased-exclusive-rank", accLt[i] = leaves * TrueWeight(probes[i], FALSE))
-            /\ UNCHANGED <<f, choices, stream, probes, accLe, accLt, leaves>>
-TInit == l = 1 /\ f = 0 /\ choices = 1 /\ stream = <<>> /\ probes = <<>> /\ accLe = <<>> /\ accLt = <<>> /\ leaves = 0
+            /\ UNCHANGED <<f, choices, stream, probes, accLe, accLt, leaves, fl0>>
+TInit == l = 1 /\ f = 0 /\ fl0 = <<>> /\ choices = 1 /\ stream = <<>> /\ probes = <<>> /\ accLe = <<>> /\ accLt = <<>> /\ leaves = 0
 TNext == TBegin \/ TLeaf \/ TVerdict
 TSpec == TInit /\ [][TNext]_tvars
 ====
